@@ -2,6 +2,7 @@ import PwVerif.Model.ExecFin
 import PwVerif.Model.ExecNest
 import PwVerif.Model.ExecFine
 import PwVerif.Model.FlowFail
+import PwVerif.Model.FlowExec
 import PwVerif.Model.Proto
 open PwVerif PwVerif.Exec PwVerif.Proto PwVerif.ExecNest PwVerif.ExecFine
 
@@ -197,6 +198,8 @@ structure FlowD where
   starters : List Nat := []
   fails : List Nat := []
   pre : Bool := false
+  execs : List Nat := []                 -- children handed to the executor
+  sched : List Tok := []                 -- completions: after `h` emission events / at an idle point
 
 def FlowD.graph (f : FlowD) : Signal.Graph :=
   { conns := fun s => match f.conns.find? (fun p => p.1 == s) with
@@ -239,6 +242,85 @@ def runFlow (f : FlowD) : List String :=
 where
   showVal' : Signal.Val → String
     | .bool true => "T" | .bool false => "F" | .nd => "ND" | _ => "?"
+
+/-- canonical scheduler of a flow with executor children: starting loop, drain loop, recorded completions injected after
+emission events and at idle points, the status sweep at the end -/
+partial def driveX (nodes : Nat → Signal.Node) (onExec : Nat → Bool) (g : Signal.Graph) :
+    Nat → FlowExec.X (Nat × Bool) → List Tok → Nat → FlowExec.X (Nat × Bool) × String
+  | 0, x, _, _ => (x, "fuel")
+  | fuel + 1, x, toks, ev =>
+    let exc : Nat → Nat → (Nat × Bool) := fun i _ => (i, true)
+    let refusal : Nat → (Nat × Bool) := fun i => (i, false)
+    let stp := FlowExec.xstep nodes onExec exc refusal g
+    let grew (x' : FlowExec.X (Nat × Bool)) : Nat :=
+      if x'.s.store.fs.st.doneLog.length > x.s.store.fs.st.doneLog.length then ev + 1 else ev
+    if x.phase = 2 then (x, "ended") else
+    if x.phase = 0 then
+      match stp x .begin with
+      | some x' => driveX nodes onExec g fuel x' toks ev
+      | none => (x, "stuck-begin")
+    else
+    match toks with
+    | .at h k :: more =>
+      if h = ev then
+        match stp x (.complete k) with
+        | some x' => driveX nodes onExec g fuel x' more (ev + 1)
+        | none => (x, s!"stuck-complete-{k}")
+      else canon stp grew fuel x toks
+    | _ => canon stp grew fuel x toks
+where
+  canon (stp : FlowExec.X (Nat × Bool) → FlowExec.XAct → Option (FlowExec.X (Nat × Bool)))
+      (grew : FlowExec.X (Nat × Bool) → Nat) (fuel : Nat) (x : FlowExec.X (Nat × Bool)) (toks : List Tok) :
+      FlowExec.X (Nat × Bool) × String :=
+    if !x.rest.isEmpty then
+      match stp x .start with
+      | some x' => driveX nodes onExec g fuel x' toks (grew x')
+      | none => (x, "stuck-start")
+    else if !x.s.queue.isEmpty then
+      match stp x .deliver with
+      | some x' => driveX nodes onExec g fuel x' toks (grew x')
+      | none => (x, "stuck-deliver")
+    else if !x.s.store.inflight.isEmpty then
+      match toks with
+      | .sleep k :: more =>
+        match stp x (.complete k) with
+        | some x' => driveX nodes onExec g fuel x' more (grew x')
+        | none => (x, s!"stuck-complete-{k}")
+      | _ => (x, "stuck-idle")
+    else
+      match stp x .finish with
+      | some x' => (x', "ended")
+      | none => (x, "stuck-finish")
+
+def runFlowX (f : FlowD) : List String :=
+  let g := f.graph
+  let exc : Nat → Nat → (Nat × Bool) := fun i _ => (i, true)
+  let refusal : Nat → (Nat × Bool) := fun i => (i, false)
+  let st0 : Signal.Store :=
+    if f.pre then
+      ((Signal.compositeRun (FlowFail.flowSem true (f.nodes false) exc refusal) g 4000
+        (Signal.S.init (FlowFail.FStore.init Signal.Store.init) (fun _ => []))).store).st
+    else Signal.Store.init
+  let (x, fin) := driveX (f.nodes true) (fun i => f.execs.contains i) g 4000 (FlowExec.X.init st0) f.sched 0
+  let fs := x.s.store.fs
+  let ids := List.range f.n
+  let showE (e : Nat × Bool) : String := if e.2 then s!"orig:{e.1}" else s!"refusal:{e.1}"
+  let seen := match FlowFail.seen fs.book with
+    | .nothing => "-"
+    | .failedChild (some e) => "fc " ++ showE e
+    | .failedChild none => "fc none"
+  let tv : Signal.Val → String := fun v => match v with
+    | .bool true => "T" | .bool false => "F" | .nd => "ND" | _ => "?"
+  [ s!"W exec {showNats (fs.st.execLog.drop st0.execLog.length)}",
+    s!"W done {showNats (fs.st.doneLog.drop st0.doneLog.length)}",
+    s!"W failed {showNats (ids.filter fun i => fs.st.failed i)}",
+    "W collect " ++ " ".intercalate ((fs.log.filter (·.raised)).map fun en =>
+      s!"{en.child}:{if en.started then "run" else "refused"}"),
+    "W truth " ++ " ".intercalate ((f.ifs.map (·.1)).map fun i => s!"{i}:{tv (fs.st.out i)}"),
+    s!"W seen {seen}",
+    s!"W queue {x.s.queue.length}",
+    s!"W running {showNats x.s.store.inflight}",
+    s!"W status {fin}" ]
 
 /-! ### kinds of raised objects × paths (Model/ExecNest.lean `propagate`) -/
 
@@ -422,7 +504,7 @@ def reportComp (t : Tree Path) (c : CDesc) : List String :=
   let tag := s!"N {showPath c.path}"
   match stateAt t c.path with
   | none => [s!"{tag} missing"]
-  | some (d, s, kids) =>
+  | some (_, s, kids) =>
     let ids := List.range c.f.n
     -- a child that completed in THIS run wrote its output; otherwise it holds what it held when the run started
     let cls (i : Nat) : String :=
@@ -438,12 +520,123 @@ def reportComp (t : Tree Path) (c : CDesc) : List String :=
       s!"{tag} cls " ++ " ".intercalate (ids.map fun i => s!"{i}:{cls i}"),
       s!"{tag} running {showNats s.running}" ]
 
+/-! ### nested fine part: every composite steps its executor children's callbacks in two halves (macros run locally) -/
+
+structure NFTok where
+  p : Option Nat
+  first : Bool
+  kp : Path
+
+def parseNFTok (w : String) : Option NFTok :=
+  match w.splitOn ":" with
+  | [p, h, k] =>
+    let first? := if h = "F" then some true else if h = "T" then some false else none
+    match first?, parsePath k with
+    | some b, some kp =>
+      if p = "L" then some { p := none, first := b, kp := kp }
+      else p.toNat?.map fun p => { p := some p, first := b, kp := kp }
+    | _, _ => none
+  | _ => none
+
+structure GF where
+  t : TreeF Path
+  toks : List NFTok
+  p : Nat := 0
+  err : Option String := none
+  fuel : Nat
+
+def GF.fail (g : GF) (m : String) : GF := if g.err.isSome then g else { g with err := some m }
+
+/-- the halves recorded for the current main-thread schedule point; `must`: at least one (an idle sleep) -/
+partial def pointF (must : Bool) (g : GF) : GF :=
+  if g.err.isSome then g else
+  let rec go (g : GF) (n : Nat) : GF × Nat :=
+    match g.toks with
+    | tk :: more =>
+      if tk.p = some g.p then
+        match splitLast tk.kp with
+        | none => (g.fail "bad-token", n)
+        | some (q, k) =>
+          match nstepF Cfg.repaired g.t q (if tk.first then .cbFirst k else .cbSecond k) with
+          | some t' => go { g with t := t', toks := more } (n + 1)
+          | none => (g.fail s!"stuck-token-{showPath tk.kp}-at-{g.p}", n)
+      else (g, n)
+    | [] => (g, n)
+  let (g', n) := go g 0
+  if must ∧ n = 0 then g'.fail s!"stuck-idle-at-{g.p}" else { g' with p := g'.p + 1 }
+
+def stateAtF (t : TreeF Path) (p : Path) : Option (Dag × ExecFine.F × (Nat → Tree Path)) :=
+  match stateAt t.core p with
+  | none => none
+  | some (d, _, kids) =>
+    let rec find (t : TreeF Path) (p : Path) : Option ExecFine.F :=
+      match t, p with
+      | .leaf, _ => none
+      | .comp _ _ f _, [] => some f
+      | .comp _ _ _ ks, k :: q => find (ks k) q
+    (find t p).map fun f => (d, f, kids)
+
+mutual
+partial def runCompF (p : Path) (g : GF) : GF :=
+  if g.err.isSome then g else
+  if g.fuel = 0 then g.fail "fuel" else
+  let g := { g with fuel := g.fuel - 1 }
+  match stateAtF g.t p with
+  | none => g.fail s!"no-composite-{showPath p}"
+  | some (_, f, _) =>
+    match f.core.phase with
+    | .exited => g
+    | .aborted => g
+    | .run (i :: _) => runCompF p (ownStepF p .start i g)
+    | .run [] =>
+      match f.core.queue with
+      | (_, i) :: _ => runCompF p (ownStepF p .deliver i g)
+      | [] =>
+        match ExecFine.visRunning FCfg.repaired f with
+        | [] =>
+          match nstepF Cfg.repaired g.t p .exit with
+          | some t' => { g with t := t' }
+          | none => g.fail s!"stuck-exit-{showPath p}"
+        | _ :: _ => runCompF p (pointF true g)
+
+partial def ownStepF (p : Path) (a : ActF) (i : Nat) (g : GF) : GF :=
+  match stateAtF g.t p with
+  | none => g.fail "no-composite"
+  | some (d, f, kids) =>
+    match nstepF Cfg.repaired g.t p a with
+    | none => g.fail s!"stuck-{showPath p}"
+    | some t' =>
+      let g := { g with t := t' }
+      match stateAtF t' p with
+      | none => g.fail "no-composite"
+      | some (_, f', _) =>
+        if f.core.st i = .idle ∧ f'.core.st i ≠ .idle then
+          if f'.core.st i = .out then
+            if isComp (kids i) ∧ d.onExec i = false then
+              -- a macro run locally: its whole loop, then both bookkeeping calls on this thread, an emission point
+              let g := runCompF (p ++ [i]) g
+              if g.err.isSome then g else
+              match nstepF Cfg.repaired g.t p (.cbFirst i) with
+              | none => g.fail s!"stuck-complete-{showPath (p ++ [i])}"
+              | some t1 =>
+                match nstepF Cfg.repaired t1 p (.cbSecond i) with
+                | none => g.fail s!"stuck-second-{showPath (p ++ [i])}"
+                | some t2 => pointF false { g with t := t2 }
+            else g
+          else pointF false g
+        else g
+end
+
+def midPaths (t : TreeF Path) (ds : List CDesc) : List String :=
+  (ds.filter fun c => !(t.midAt c.path).isEmpty).map fun c => showPath c.path
+
 structure DSt where
   f : FinDag
   sched : List Tok
   descs : List CDesc := []
   cur : Option Path := none
   nsched : List NTok := []
+  nfsched : List NFTok := []
   fsched : List FTok := []
   flow : FlowD := {}
   lastTree : Option (Tree Path) := none
@@ -546,7 +739,13 @@ def step' (s : DSt) (ws : List String) : DSt × List String :=
     | some is => ({ s with flow := { s.flow with fails := is } }, [])
     | none => (s, ["bad-op"])
   | ["wpre"] => ({ s with flow := { s.flow with pre := true } }, [])
-  | ["wrun"] => (s, runFlow s.flow)
+  | "wexec" :: is => match nats is with
+    | some is => ({ s with flow := { s.flow with execs := is } }, [])
+    | none => (s, ["bad-op"])
+  | "wsched" :: ts => match ts.mapM parseTok with
+    | some ts => ({ s with flow := { s.flow with sched := ts } }, [])
+    | none => (s, ["bad-op"])
+  | ["wrun"] => (s, if s.flow.execs.isEmpty then runFlow s.flow else runFlowX s.flow)
   | "ktab" :: k :: es => match parseKind k, es.mapM (fun e => if e = "1" then some true else if e = "0" then some false else none) with
     | some k, some es => (s, ktabReport "H" KCfg.head k es ++ ktabReport "P" KCfg.proposed k es)
     | _, _ => (s, ["bad-op"])
@@ -560,6 +759,30 @@ def step' (s : DSt) (ws : List String) : DSt × List String :=
     ({ s with lastTree := some g.t },
      [s!"wf {s.descs.all (·.f.check)}"] ++ (s.descs.map (reportComp g.t)).flatten ++
         [s!"chain {showErr (raised g.t)}", s!"status {status}"])
+  | "nfsched" :: ts => match ts.mapM parseNFTok with
+    | some ts => ({ s with nfsched := ts }, [])
+    | none => (s, ["bad-op"])
+  | ["nfrun"] =>
+    let total := (s.descs.map (·.f.n)).sum
+    let t0 := build s.descs 16 []
+    let g := runCompF [] { t := t0.fine, toks := s.nfsched, fuel := 16 * (total + 4) * (total + 4) + 64 }
+    let status := match g.err with
+      | some m => m
+      | none => if g.toks.isEmpty then "ok" else "tokens-left"
+    ({ s with lastTree := some g.t.core },
+     [s!"wf {s.descs.all (·.f.check)}"] ++ (s.descs.map (reportComp g.t.core)).flatten ++
+        [s!"chain {showErr (raised g.t.core)}", s!"status {status}", s!"mid [{",".intercalate (midPaths g.t s.descs)}]"])
+  | ["ncycle", su, ex, em, rc] =>
+    -- the outermost runnable's own run cycle around the nested run just made
+    let b (w : String) : Option Bool := if w = "1" then some true else if w = "0" then some false else none
+    match s.lastTree, b su, b ex, b em, b rc with
+    | some t, some su, some ex, some em, some rc =>
+      let c := runCycle false su ex em rc (raised t)
+      let ret := match c.ret with
+        | .value => "value" | .none => "none" | .raised _ => "raised" | .future => "future"
+      (s, [ s!"O flags {c.running} {c.failed}", s!"O failedsig {c.failedSignals}", s!"O ransig {c.ranSignals}",
+            s!"O recovery {if c.recovery then "yes" else "no"}", s!"O ret {ret}" ])
+    | _, _, _, _, _ => (s, ["bad-op"])
   | ["sel", p] => match parsePath p with
     | some p => if (findDesc s.descs p).isSome then ({ s with cur := some p }, []) else (s, ["bad-op"])
     | none => (s, ["bad-op"])
